@@ -392,6 +392,13 @@ class C13(PropBase):
             out.append(self.b_years(rng))
         for _ in range(600 * mult):
             out.append(self.b_random(rng))
+        # a large journal (thousands of transactions over months, a count off any block size): every transaction in exactly
+        # one group whatever the size
+        for _ in range(1 if q else 5):
+            n = rng.choice([2051, 2049, 1025, 4099])
+            base = c16.days_civil(2024, 1, 1) * DAY * NS
+            out.append(self.mk(rng, "large:%d" % n, rng.choice(["UTC", "Europe/Helsinki", "Asia/Tokyo"]), rng.choice(GROUP_BYS),
+                               [base + i * 3601 * NS for i in range(n)]))
         if not q:
             # every backward transition of the core zones
             bw = backward_transitions()
